@@ -545,8 +545,8 @@ class Interp:
             other = a if none_side is b else b
             if none_side is not None:
                 if isinstance(other, (Inst, ListV, DictV, SetV, BA, PBits, PInt, ClassRef, FuncRef, Bound, Native)) or \
-                        getattr(other, 'not_none', False):
-                    return K(t is ast.IsNot)
+                        getattr(other, 'not_none', False) or not isinstance(other, (K, Sym, Term, Cond)):
+                    return K(t is ast.IsNot)        # only the constant None is None; model objects of library classes never are
                 if isinstance(other, Sym) and other.meta.get('not_none'):
                     return K(t is ast.IsNot)
                 if isinstance(other, Term) and other.op in ('hex', 'decode', 'encode', 'cat', 'sha256', 'sha512', 'to_bytes', 'from_bytes', 'fstr', 'tobytes',
